@@ -1,8 +1,44 @@
-(* C14 — compiled quantum circuits implement the circuit's unitary (statements follow) *)
-From Coq Require Import List Arith Bool.
-From BM Require Import Front.Quantum.
+(* C14 — compiled quantum circuits implement the circuit's unitary.
+   Proved here, for matrices over any commutative ring (multiplication associative, commutative,
+   with unit and absorbing zero): every layer the compiler emits is the simultaneous application
+   of the layer's gates to the qubits they name, identity elsewhere — for every number of qubits,
+   every gate arity and every assignment of qubits to gates (adjacent or not, in any order).
+   This is the statement about BmMatrixFromOperation as repaired by e051db6 (localOrder holds
+   positions); the code before the repair is refuted below.  The remaining step to the property's
+   wording — that the simultaneous application equals applying the gates one after the other, and
+   that the product of the layers is therefore the circuit's unitary — is checked exactly (in
+   Z[1/2][zeta8]) on every generated circuit but not proved in general (partial). *)
+From Coq Require Import List Arith Bool ZArith.
+From BM Require Import Front.Quantum Front.Cyclo8 Front.QuantumCheck Proofs.QuantumProofs Proofs.QuantumPlace Proofs.QuantumLayer.
 Import ListNotations.
 
+Theorem compiled_layer_is_the_simultaneous_application_of_its_gates :
+  forall (K : Type) (k0 k1 : K) (kmul : K -> K -> K),
+  (forall a, kmul k1 a = a) -> (forall a, kmul a k1 = a) ->
+  (forall a, kmul k0 a = k0) -> (forall a, kmul a k0 = k0) ->
+  (forall a b c, kmul a (kmul b c) = kmul (kmul a b) c) -> (forall a b, kmul a b = kmul b a) ->
+  forall (n : nat) (ops : list (qop K)),
+  Forall (fun o => op_wf K n o = true) ops -> NoDup (touched K ops) -> 0 < n ->
+  exists M, layer_matrix K k0 k1 kmul n ops = Ok M /\ nq M = n /\
+            forall i j, length i = n -> length j = n -> ent M i j = ent (par_ref K k0 k1 kmul n ops) i j.
+Proof. intros K k0 k1 kmul H1 H2 H3 H4 H5 H6 n ops Hwf Hd Hn. eapply layer_correct; eauto. Qed.
+Print Assumptions compiled_layer_is_the_simultaneous_application_of_its_gates.
+
+(* a whole circuit: every line well formed -> the compiler emits one matrix per layer and each is the
+   simultaneous application of that layer's gates (the layers name disjoint qubits by construction) *)
+Theorem circuit_compiles_layer_by_layer :
+  forall (K : Type) (k0 k1 : K) (kmul : K -> K -> K),
+  (forall a, kmul k1 a = a) -> (forall a, kmul a k1 = a) ->
+  (forall a, kmul k0 a = k0) -> (forall a, kmul a k0 = k0) ->
+  (forall a b c, kmul a (kmul b c) = kmul (kmul a b) c) -> (forall a b, kmul a b = kmul b a) ->
+  forall (n : nat) (c : list (qop K)), 0 < n -> Forall (fun o => op_wf K n o = true) c ->
+  exists ms, compile K k0 k1 kmul n c = Some ms /\
+    Forall2 (fun M l => nq M = n /\ forall i j, length i = n -> length j = n -> ent M i j = ent (par_ref K k0 k1 kmul n l) i j)
+            ms (circuit_layers K c).
+Proof. intros K k0 k1 kmul H1 H2 H3 H4 H5 H6 n c Hn Hwf. eapply circuit_compiles; eauto. Qed.
+Print Assumptions circuit_compiles_layer_by_layer.
+
+(* layering loses nothing and keeps the order *)
 Theorem layering_keeps_every_line : forall K (c : list (qop K)),
   concat (circuit_layers K c) = c.
 Proof.
@@ -16,3 +52,25 @@ Proof.
   rewrite F, H. reflexivity.
 Qed.
 Print Assumptions layering_keeps_every_line.
+
+(* the hypotheses are met: integers, three qubits, a two-qubit gate on the non-adjacent pair (2,0) next to
+   a one-qubit gate, and the compiled layer is not the identity *)
+Definition zgate2 : mat Z := mkMat 2 (fun i j => match i, j with [a; b], [c; d] => if Bool.eqb a d && Bool.eqb b c then 1%Z else 0%Z | _, _ => 0%Z end).
+Definition zgate1 : mat Z := mkMat 1 (fun i j => match i, j with [a], [b] => if Bool.eqb a b then 0%Z else 1%Z | _, _ => 0%Z end).
+Example hypotheses_are_satisfiable :
+  let ops := [mkOp [2; 0] zgate2; mkOp [1] zgate1] in
+  Forall (fun o => op_wf Z 3 o = true) ops /\ NoDup (touched Z ops) /\
+  match layer_matrix Z 0%Z 1%Z Z.mul 3 ops with
+  | Ok M => ent M [true; false; false] [false; true; true] = 1%Z
+  | Panic _ => False end.
+Proof. simpl. split; [repeat constructor|]. split; [|reflexivity]. repeat constructor; simpl; intuition discriminate. Qed.
+
+(* the code before the repair: four qubits, cx q0,q3 and cx q2,q1 in one layer — the emitted matrix is not
+   the simultaneous application (exact arithmetic) *)
+Example layer_before_the_repair_refuted :
+  let ops := map to_op [(GCX, [0; 3]); (GCX, [2; 1])] in
+  forallb (op_wf c8 4) ops = true /\
+  match layer_matrix_old c8 c8_0 c8_1 c8_mul 4 ops with
+  | Ok M => mat_eqb 4 M (par_ref c8 c8_0 c8_1 c8_mul 4 ops) = false
+  | Panic _ => True end.
+Proof. vm_compute. auto. Qed.
